@@ -27,6 +27,80 @@ def ragged(rng, depth, maxlen=3, p_empty=0.1, p_ragged=0.35):
         return '[' + ','.join(build(level + 1) for _ in range(k)) + ']'
     return build(0)
 
+def exhaustive_small_scope(level='thorough', maxlines=400):
+    """EVERY call in a small scope, not a sample: all shapes of rank <= 3 with sizes <= 3 (40 shapes, pairwise
+    distinct values), every index tuple / range list / target shape / dim over a small integer range, every pair of
+    shapes for the binary operations. Programs are cut into chunks so that a failure shrinks quickly."""
+    progs = []
+    if level == 'quick':
+        shapes = list(all_shapes(2, 3))                       # 13 shapes
+    else:
+        shapes = list(all_shapes(3, 3)) + [sh for sh in all_shapes(4, 2, 4)]   # 40 + 16 shapes
+    def chunked(name, shape, cmds, tracked=False, second=None):
+        """cmds: list of format strings over the handle(s)"""
+        for ci in range(0, len(cmds), maxlines):
+            p = Prog('%s_%d' % (name, ci // maxlines))
+            t = p.tensor(shape, small_vals(prod(shape)), tracked=tracked)
+            u = p.tensor(second, [50.0 + v for v in range(prod(second))]) if second is not None else None
+            for c in cmds[ci:ci + maxlines]:
+                line = c.replace('$T', t)
+                if u is not None: line = line.replace('$U', u)
+                if line.startswith('='):
+                    r = p.bind(line[1:]); p.add('obs %s' % r)
+                else:
+                    p.add(line)
+            p.tag('exhaustive-small-scope')
+            progs.append(p)
+    I5 = [-1, 0, 1, 2, 3]
+    RNG = [(a, b) for a in [-1, 0, 1, 2, 3, 4] for b in [-1, 0, 1, 2, 3, 4]]
+    for si, shape in enumerate(shapes):
+        r = len(shape)
+        cmds = []
+        # At: every index tuple of length r-1 .. r+1 over I5
+        for ln in range(max(r - 1, 0), min(r + 2, 5)):
+            for idx in itertools.product(I5, repeat=ln):
+                cmds.append('at $T %s' % (ints(list(idx)) if ln else '-'))
+        cmds.append('at $T nil')
+        # Slice: every range list of length 0 .. r over all (from,to) in [-1,4]^2 (rank 3: restricted to shapes <= 2 to bound the count)
+        for ln in range(0, r + 1):
+            if ln >= 3 and (max(shape) > 2 or r > 3): continue
+            for rl in itertools.product(RNG, repeat=ln):
+                cmds.append('=slice $T %s' % (ranges(list(rl)) if ln else '-'))
+        if r <= 2:
+            for rl in itertools.product(RNG, repeat=r + 1):
+                cmds.append('=slice $T %s' % ranges(list(rl)))
+        # Reshape / Broadcast targets: every list of length 0..3 over a small set
+        for ln in range(0, 4):
+            for tg in itertools.product([-1, 0, 1, 2, 3, 4, 6, 9], repeat=ln):
+                cmds.append('=reshape $T %s' % (ints(list(tg)) if ln else '-'))
+            for tg in itertools.product([-1, 0, 1, 2, 3], repeat=ln):
+                cmds.append('=broadcast $T %s' % (ints(list(tg)) if ln else '-'))
+        for k in range(-2, 6):
+            for cmd in ['unsqueeze', 'squeeze', 'flatten'] + ALONG:
+                cmds.append('=%s $T %d' % (cmd, k))
+        cmds.append('=transpose $T')
+        chunked('ex_u%d' % si, shape, cmds, tracked=(si % 2 == 0))
+    # binary operations, Concat and Patch over every ordered pair of shapes
+    PR = [(0, 0), (0, 1), (0, 2), (0, 3), (1, 2), (1, 3), (2, 3), (1, 1), (2, 1), (-1, 1), (0, 4)]
+    for ai, sa in enumerate(shapes):
+        for bi, sb in enumerate(shapes):
+            cmds = []
+            for o in BIN:
+                cmds.append('=%s $T $U' % o)
+            cmds.append('equals $T $U')
+            for d in range(-1, 4):
+                cmds.append('=concat $T,$U %d' % d)
+                cmds.append('=concat $U,$T,$U %d' % d)
+            # Patch of $U into $T: every range list of length 0 .. rank over PR (rank 3 restricted to sizes <= 2)
+            r = len(sa)
+            for ln in range(0, r + 1):
+                if ln >= 3 and (max(sa) > 2 or max(sb or [1]) > 2 or r > 3): continue
+                if ln == 2 and max(sa) > 2 and max(sb or [1]) > 2 and len(sb) == 3: continue
+                for rl in itertools.product(PR, repeat=ln):
+                    cmds.append('=patch $T %s $U' % (ranges(list(rl)) if ln else '-'))
+            chunked('ex_b%d_%d' % (ai, bi), sa, cmds, tracked=((ai + bi) % 3 == 0), second=sb)
+    return progs
+
 def gen_C09(rng, tier):
     progs = []
     shapes = list(all_shapes(3, 3))
